@@ -6,7 +6,7 @@ import os
 HERE = os.path.dirname(os.path.dirname(os.path.abspath(__file__)))
 props = [json.loads(l) for l in open(os.path.join(HERE, 'properties.jsonl'))]
 
-TB = 'z3 5.1 verdicts; CPython semantics for un-instrumented code; hv.instrument AST pass (validated by running the repo test-suite on the instrumented modules at setup); oracle files under /verif/oracle; bounds as listed in the evidence file'
+TB = 'z3 5.1 verdicts (whole-return queries that z3 leaves unknown are decided by the cvc5 1.0.3 binary on the same SMT-LIB2 text; its sat models are re-checked by z3 and replayed); CPython semantics for un-instrumented code; hv.instrument AST pass (validated by running the repo test-suite on the instrumented modules at setup); oracle files under /verif/oracle; bounds as listed in the evidence file'
 
 CHECKS = {
  'C10': dict(
@@ -15,11 +15,11 @@ CHECKS = {
     design='4 C10', note=TB + '; oracle/absent_forms.json lists the deliberately absent forms; whole-return model validated differentially against the real Solver'),
  'C09': dict(
     technique='SMT queries over a whole-return model composed from path-exhaustive symbolic summaries of the real line definitions (z3: gate affirmative and consulted and solved must be unsat), witnesses replayed on the real Solver',
-    text='For every gate input of oracle/gates.json (62-64 per year) and two arithmetic limit gates, z3 is asked whether some input assignment makes an evaluated line consult the gate with an affirmative answer (or exceed the limit) while the whole return still solves; unsat = impossible for every input inside the bound (K copies per input form, S in total, amounts <= 1e8 in whole cents, symbolic filing status). Each gate has a reachability twin (gate negative must be satisfiable). The model is the composition of the real line functions executed symbolically; it is validated differentially against the real Solver, and every sat witness is replayed on the uninstrumented code.',
+    text='For every gate input of oracle/gates.json (62-64 per year on the Form 1040 closure, 4-5 NC gates per year on the 1040 + NC D-400 closure) and two arithmetic limit gates, z3 is asked whether some input assignment makes an evaluated line consult the gate with an affirmative answer (or exceed the limit) while the whole return still solves; unsat = impossible for every input inside the bound (K copies per input form, S in total, amounts <= 1e8 in whole cents, symbolic filing status). Each gate has a reachability twin (gate negative must be satisfiable). The model is the composition of the real line functions executed symbolically; it is validated differentially against the real Solver, and every sat witness is replayed on the uninstrumented code.',
     design='4 C09', note=TB + '; oracle/gates.json (generated from the pinned tree, reviewed) is the specification of the unsupported situations'),
  'C15': dict(
     technique='SMT queries over a whole-return model composed from path-exhaustive symbolic summaries of the real line definitions (z3: solved and not balance / solved and line < 0 must be unsat for non-negative inputs), witnesses replayed on the real Solver',
-    text='For every year z3 is asked for a solved return (inputs >= 0, whole cents, symbolic filing status, K copies per input form / S in total) in which 34-37 != 33-24, both 34 and 37 are positive, 35a+36 != 34, or a line that the forms define as non-negative (oracle/nonneg.json, ~60 lines) is negative; unsat = impossible inside the bound. figure_tax is replaced by the rate-schedule term C07 proves it equal to, rounding by the banded model (identity on operands already on the cent grid). Witnesses are replayed on the uninstrumented Solver; reachability twins guard against vacuity. NC balance only in the thorough tier.',
+    text='For every year z3 is asked for a solved return (inputs >= 0, whole cents, symbolic filing status, K copies per input form / S in total) in which 34-37 != 33-24, both 34 and 37 are positive, 35a+36 != 34, or a line that the forms define as non-negative (oracle/nonneg.json, ~60 federal and ~30 NC lines) is negative, and likewise for the NC return (28-26a == 25-19, 34+33 == 28) on the 1040 + NC D-400 closure; unsat = impossible inside the bound. figure_tax is replaced by the rate-schedule term C07 proves it equal to, rounding by the banded model (identity on operands already on the cent grid). Witnesses are replayed on the uninstrumented Solver; reachability twins guard against vacuity.',
     design='4 C15', note=TB + '; oracle/nonneg.json lists the lines the forms define as non-negative'),
  'C11': dict(
     technique='bounded symbolic execution of the real input layer on a symbolic string (code-point array + length, z3 decides path feasibility); float()/int()/re as symbolic DFAs validated against CPython; finiteness by SMT query',
@@ -56,11 +56,11 @@ CHECKS = {
  'C16': dict(
     technique='relational SMT queries: per-line summary invariance under swapping the two copies of an input form (one query R(x,o1) and R(pi x,o2) and o1 != o2 per line, inductive along the read graph); two renamed copies of the whole-return model differing in one input for the monotonicity / exact-response claims',
     text='(a) For K=2 copies of each input form (W-2, 1099-INT/DIV/R/G, 1098) and every line that reads a numbered copy, z3 shows that no values make the line differ when copies 0 and 1 are swapped (per-payer listing lines exempt); with an acyclic read graph the whole return is then invariant. (b) Wages up => total tax not lower, deduction up => not higher, withholding + d => refund-minus-owed + d are posed as relational queries on two copies of the whole-return model (both solved, figure_tax = the schedule term C07 verifies) under a time cap; queries that time out are reported INCONCLUSIVE and named in the evidence, never counted as discharged. Witnesses are replayed as two real solves.',
-    design='4 C16', note=TB + '; lines with more than 300 paths (NC withholding lines at K=2) and timed-out relational queries are inconclusive'),
+    design='4 C16', note=TB + '; lines with more than 400 paths (NC withholding lines at K=2) and timed-out relational queries are inconclusive'),
  'C02': dict(
     technique='SMT queries over a whole-return model composed from path-exhaustive symbolic summaries of the real line definitions: solved and |line - official instruction(other lines)| > tolerance must be unsat; instructions parsed by a grammar from the accessibility text of the bundled IRS templates (re-extracted each run)',
     text='The per-line instruction (Add lines a through b / a, b and c; Subtract line a from line b [floor at 0]; Multiply line a by r% (0.0r) or by $c; Enter the smaller/larger of ...; smaller of line a or $c ($d if MFS); Enter the amount from line a / from Schedule X, line n / from Form 1040, line n) is parsed out of the XFA text of every mapped numeric line of every IRS template of 2021-2023 (80-94 instructions per year; unparsed text leaves the line uncovered and counted). For each, z3 is asked for a solved return (symbolic filing status, K copies, whole cents) in which the stored line differs by more than half a cent + eps from the instruction applied to the other stored lines (blank = 0); unsat = equal for every input inside the bound. Witnesses are replayed on the real Solver with an independent evaluation of the instruction.',
-    design='4 C02', note=TB + '; oracle/instruction_overrides.json (reviewed transcriptions / exclusions); worksheets and NC forms have no machine-readable text and are not covered'),
+    design='4 C02', note=TB + '; oracle/instruction_overrides.json (reviewed transcriptions / exclusions); worksheets and NC schedules have no machine-readable text and are not covered; NC D-400 is covered by a cited transcription of 15 computed lines'),
  'C07': dict(
     technique='bounded symbolic execution of the real figure_tax on a symbolic real income (proxy objects through the real bytecode, z3 decides path feasibility) + per-path SMT equivalence with the statutory rate schedule',
     text='Every path of the real figure_tax/figure_tax_table/figure_tax_worksheet (one per table row and worksheet row, for each year and each of the 5 statuses) is enumerated by the symbolic executor; for each, z3 proves value(x) == schedule(x) for every real x on that path (unsat of the negation), that no feasible x falls through, and monotonicity across adjacent pieces. Holds for all real x in [0,1e12]; float rounding of the worksheet kernel is bounded by an NRA lemma under the IEEE standard model. Witnesses are replayed on the uninstrumented code before being reported.',
